@@ -1,11 +1,715 @@
-//! C07 — not built yet (see DESIGN.md §5 C07).
+//! C07 — aggregates and grouping follow their SQL definitions on every input.
+//!
+//! Space: every row multiset (inserted ascending and descending; all sequences up to length 2) of
+//! size 0..n of `(k, x)` with k ∈ {NULL,0,1}, x ∈ {NULL,0,1,2} for x INT and x DOUBLE, a mixed
+//! integer/float variant (the aggregated value of a row is an INT or a DOUBLE, reached through
+//! `COALESCE(x, y)` over an INT and a DOUBLE column), and a DOUBLE-key variant with 0.0 / −0.0 / NaN
+//! keys (thorough) × every aggregate form COUNT(*), COUNT, SUM, AVG, MIN, MAX and their DISTINCT
+//! forms (one per query, and all in one select list) × grouping ∈ {none, k, (k, x)} × both
+//! execution paths (columnar gate as shipped / forced off).
+//! Oracle: `refagg` — the definitions written out in boring Rust; one row per distinct key with
+//! NULLs as one group; exactly one row without GROUP BY.
 
-pub fn run(_tier: &str) -> i32 {
-    eprintln!("MACHINERY-ERROR C07 is not built yet");
-    2
+use std::collections::{BTreeMap, HashSet};
+
+use serde_json::{json, Value};
+use vcore::report::Report;
+use vcore::util::{multisets, par_map};
+use vcore::val::{self, NV};
+use vibesql_ast::SelectStmt;
+use vibesql_types::SqlValue;
+
+use crate::common::{self, nv, Obs};
+use crate::refagg::{aggregate, group_by_key, Func, V};
+
+#[derive(Clone, Copy, Debug, PartialEq, Eq)]
+pub enum Variant {
+    /// g(k INT, x INT)
+    IntInt,
+    /// g(k INT, x DOUBLE)
+    IntDbl,
+    /// g(k INT, x INT, y DOUBLE); the aggregated value is COALESCE(x, y): INT, DOUBLE or NULL per row
+    Mixed,
+    /// g(k DOUBLE, x INT) with keys NULL, 0.0, −0.0, NaN, 1.0 (rows inserted as literals of an AST)
+    DblKey,
+    /// g(k VARCHAR, x VARCHAR): COUNT / MIN / MAX (and DISTINCT forms) over strings, string keys
+    Str,
 }
 
-pub fn replay(_case: &serde_json::Value) -> i32 {
-    eprintln!("MACHINERY-ERROR C07 is not built yet");
-    2
+impl Variant {
+    fn name(self) -> &'static str {
+        match self {
+            Variant::IntInt => "k INT, x INT",
+            Variant::IntDbl => "k INT, x DOUBLE",
+            Variant::Mixed => "k INT, COALESCE(x INT, y DOUBLE)",
+            Variant::DblKey => "k DOUBLE (0.0/-0.0/NaN), x INT",
+            Variant::Str => "k VARCHAR, x VARCHAR",
+        }
+    }
+    fn value_expr(self) -> &'static str {
+        if self == Variant::Mixed {
+            "COALESCE(x, y)"
+        } else {
+            "x"
+        }
+    }
+    fn key_domain(self) -> Vec<V> {
+        match self {
+            Variant::DblKey => vec![V::Null, V::F(0.0), V::F(-0.0), V::F(f64::NAN), V::F(1.0)],
+            Variant::Str => vec![V::Null, V::S("a".into()), V::S("b".into())],
+            _ => vec![V::Null, V::I(0), V::I(1)],
+        }
+    }
+    fn val_domain(self, thorough: bool) -> Vec<V> {
+        match self {
+            Variant::IntInt => vec![V::Null, V::I(0), V::I(1), V::I(2)],
+            Variant::IntDbl => {
+                let mut d = vec![V::Null, V::F(0.0), V::F(1.0), V::F(2.0)];
+                if thorough {
+                    d.push(V::F(0.5));
+                }
+                d
+            }
+            Variant::Mixed => vec![V::Null, V::I(0), V::I(1), V::I(2), V::F(0.5), V::F(1.0)],
+            Variant::DblKey => vec![V::Null, V::I(1), V::I(2)],
+            Variant::Str => vec![V::Null, V::S("a".into()), V::S("b".into()), V::S("ab".into())],
+        }
+    }
+}
+
+/// A logical row: (key, aggregated value).
+type Row = (V, V);
+
+#[derive(Clone, Copy, Debug, PartialEq, Eq)]
+pub enum Grouping {
+    None,
+    K,
+    KX,
+    /// GROUP BY the value expression (mixed variant: the keys 1 and 1.0 are one key)
+    X,
+}
+
+#[derive(Clone, Debug)]
+pub struct Q {
+    pub aggs: Vec<(Func, bool)>,
+    pub grouping: Grouping,
+}
+
+const FORMS: [(Func, bool); 11] = [
+    (Func::CountStar, false),
+    (Func::Count, false),
+    (Func::Count, true),
+    (Func::Sum, false),
+    (Func::Sum, true),
+    (Func::Avg, false),
+    (Func::Avg, true),
+    (Func::Min, false),
+    (Func::Max, false),
+    (Func::Min, true),
+    (Func::Max, true),
+];
+
+fn agg_sql(f: Func, d: bool, vx: &str) -> String {
+    if f == Func::CountStar {
+        "COUNT(*)".into()
+    } else {
+        format!("{}({}{})", f.name(), if d { "DISTINCT " } else { "" }, vx)
+    }
+}
+
+impl Q {
+    fn sql(&self, v: Variant) -> String {
+        let vx = v.value_expr();
+        let aggs = self.aggs.iter().map(|(f, d)| agg_sql(*f, *d, vx)).collect::<Vec<_>>().join(", ");
+        match self.grouping {
+            Grouping::None => format!("SELECT {} FROM g", aggs),
+            Grouping::K => format!("SELECT k, {} FROM g GROUP BY k", aggs),
+            Grouping::KX => format!("SELECT k, {}, {} FROM g GROUP BY k, {}", vx, aggs, vx),
+            Grouping::X => format!("SELECT {}, {} FROM g GROUP BY {}", vx, aggs, vx),
+        }
+    }
+    fn shape(&self) -> String {
+        self.aggs.iter().map(|(f, d)| agg_sql(*f, *d, "x")).collect::<Vec<_>>().join(",")
+    }
+}
+
+fn family(v: Variant) -> Vec<Q> {
+    let mut out = vec![];
+    let groupings: &[Grouping] = match v {
+        Variant::Mixed => &[Grouping::None, Grouping::K, Grouping::X],
+        _ => &[Grouping::None, Grouping::K, Grouping::KX],
+    };
+    // strings: no SUM / AVG
+    let forms: Vec<(Func, bool)> =
+        FORMS.iter().copied().filter(|(f, _)| v != Variant::Str || !matches!(f, Func::Sum | Func::Avg)).collect();
+    for g in groupings {
+        for form in &forms {
+            out.push(Q { aggs: vec![*form], grouping: *g });
+        }
+        out.push(Q { aggs: forms.clone(), grouping: *g });
+    }
+    out
+}
+
+// ----- reference -------------------------------------------------------------------------------
+
+/// Key equality for grouping. Ordinary variants: SQL value equality with NULLs as one group
+/// (`refagg::group_by_key`). DOUBLE keys with −0.0/NaN: whatever `SqlValue: Eq` says is one key
+/// (C21 owns that relation), so the expectation is derived from it, not from IEEE.
+fn groups(v: Variant, keys: &[Vec<V>]) -> Vec<(Vec<V>, Vec<usize>)> {
+    if v != Variant::DblKey {
+        // composite keys: group on the first component, then refine on the following ones
+        let mut parts: Vec<(Vec<V>, Vec<usize>)> = vec![(vec![], (0..keys.len()).collect())];
+        let width = keys.first().map(|k| k.len()).unwrap_or(0);
+        for c in 0..width {
+            let mut next = vec![];
+            for (prefix, idx) in parts {
+                let col: Vec<V> = idx.iter().map(|&i| keys[i][c].clone()).collect();
+                for (kv, members) in group_by_key(&col) {
+                    let mut p = prefix.clone();
+                    p.push(kv);
+                    next.push((p, members.iter().map(|&j| idx[j]).collect()));
+                }
+            }
+            parts = next;
+        }
+        return parts;
+    }
+    let mut out: Vec<(Vec<V>, Vec<usize>)> = vec![];
+    for (i, k) in keys.iter().enumerate() {
+        let ks: Vec<SqlValue> = k.iter().map(|x| x.to_sql_value()).collect();
+        let pos = out.iter().position(|(g, _)| g.iter().map(|x| x.to_sql_value()).collect::<Vec<_>>() == ks);
+        match pos {
+            Some(p) => out[p].1.push(i),
+            None => out.push((k.clone(), vec![i])),
+        }
+    }
+    out
+}
+
+fn reference(v: Variant, q: &Q, rows: &[Row]) -> Vec<Vec<V>> {
+    let keys: Vec<Vec<V>> = rows
+        .iter()
+        .map(|(k, x)| match q.grouping {
+            Grouping::None => vec![],
+            Grouping::K => vec![k.clone()],
+            Grouping::KX => vec![k.clone(), x.clone()],
+            Grouping::X => vec![x.clone()],
+        })
+        .collect();
+    // without GROUP BY the whole input is one group (also when it is empty); with GROUP BY there
+    // is one group per distinct key, hence none for an empty input
+    let parts = if q.grouping == Grouping::None {
+        vec![(vec![], (0..rows.len()).collect())]
+    } else if rows.is_empty() {
+        vec![]
+    } else {
+        groups(v, &keys)
+    };
+    parts
+        .into_iter()
+        .map(|(key, members)| {
+            let args: Vec<V> = members.iter().map(|&i| rows[i].1.clone()).collect();
+            let mut r = key;
+            for (f, d) in &q.aggs {
+                r.push(aggregate(*f, *d, &args));
+            }
+            r
+        })
+        .collect()
+}
+
+// ----- databases --------------------------------------------------------------------------------
+
+fn row_kinds(v: Variant, thorough: bool) -> Vec<Row> {
+    let mut out = vec![];
+    for k in v.key_domain() {
+        for x in v.val_domain(thorough) {
+            out.push((k.clone(), x.clone()));
+        }
+    }
+    out
+}
+
+fn databases(v: Variant, n: usize, thorough: bool, both_orders: bool) -> Vec<Vec<Row>> {
+    let kinds = row_kinds(v, thorough);
+    let mut out: Vec<Vec<Row>> = vec![];
+    for len in 0..=n.min(2) {
+        for s in common::sequences(kinds.len(), len) {
+            out.push(s.iter().map(|&i| kinds[i].clone()).collect());
+        }
+    }
+    for k in 3..=n {
+        for m in multisets(kinds.len(), k) {
+            let asc: Vec<Row> = m.iter().map(|&i| kinds[i].clone()).collect();
+            let mut desc = asc.clone();
+            desc.reverse();
+            let same = !both_orders || format!("{:?}", asc) == format!("{:?}", desc);
+            out.push(asc);
+            if !same {
+                out.push(desc);
+            }
+        }
+    }
+    out
+}
+
+fn physical(v: Variant, r: &Row) -> Vec<V> {
+    match v {
+        Variant::Mixed => match &r.1 {
+            V::I(_) => vec![r.0.clone(), r.1.clone(), V::Null],
+            V::F(_) => vec![r.0.clone(), V::Null, r.1.clone()],
+            _ => vec![r.0.clone(), V::Null, V::Null],
+        },
+        _ => vec![r.0.clone(), r.1.clone()],
+    }
+}
+
+fn columns(v: Variant) -> Vec<(&'static str, &'static str)> {
+    match v {
+        Variant::IntInt => vec![("k", "INT"), ("x", "INT")],
+        Variant::IntDbl => vec![("k", "INT"), ("x", "DOUBLE")],
+        Variant::Mixed => vec![("k", "INT"), ("x", "INT"), ("y", "DOUBLE")],
+        Variant::DblKey => vec![("k", "DOUBLE"), ("x", "INT")],
+        Variant::Str => vec![("k", "VARCHAR(5)"), ("x", "VARCHAR(5)")],
+    }
+}
+
+/// Setup as SQL text; the DOUBLE-key variant cannot be written as text (−0.0 and NaN have no
+/// literal), its rows are inserted as an `InsertStmt` AST with literal values.
+fn build(v: Variant, rows: &[Row]) -> Result<vibesql_storage::Database, String> {
+    let phys: Vec<Vec<V>> = rows.iter().map(|r| physical(v, r)).collect();
+    if v != Variant::DblKey {
+        return common::build_db(&common::table_sql("g", &columns(v), &phys)).map_err(|(s, o)| format!("{} => {}", s, o));
+    }
+    let mut db = common::build_db(&common::table_sql("g", &columns(v), &[])).map_err(|(s, o)| format!("{} => {}", s, o))?;
+    if phys.is_empty() {
+        return Ok(db);
+    }
+    // parse a template INSERT with the right number of rows, then overwrite the literals
+    let tmpl: Vec<Vec<V>> = phys.iter().map(|_| vec![V::F(1.5), V::I(1)]).collect();
+    let text = common::table_sql("g", &columns(v), &tmpl).pop().unwrap();
+    let mut stmt = vcore::exec::parse(&text)?;
+    match &mut stmt {
+        vibesql_ast::Statement::Insert(ins) => match &mut ins.source {
+            vibesql_ast::InsertSource::Values(vals) => {
+                for (ri, r) in vals.iter_mut().enumerate() {
+                    for (ci, e) in r.iter_mut().enumerate() {
+                        *e = vibesql_ast::Expression::Literal(phys[ri][ci].to_sql_value());
+                    }
+                }
+            }
+            _ => return Err("template INSERT has no VALUES".into()),
+        },
+        _ => return Err("template is not an INSERT".into()),
+    }
+    let o = vcore::exec::exec_stmt(&mut db, &stmt);
+    if !o.is_ok() {
+        return Err(format!("AST insert rejected: {}", o.brief()));
+    }
+    Ok(db)
+}
+
+fn data_class(rows: &[Row]) -> &'static str {
+    if rows.is_empty() {
+        "empty"
+    } else if rows.iter().all(|r| r.1.is_null()) {
+        "all_x_null"
+    } else if rows.iter().any(|r| r.0.is_null()) {
+        "null_key"
+    } else if rows.iter().any(|r| r.1.is_null()) {
+        "some_x_null"
+    } else {
+        "no_nulls"
+    }
+}
+
+/// Do the aggregated values contain an INT and a DOUBLE that are the same number (1 and 1.0)?
+fn int_float_twins(rows: &[Row]) -> bool {
+    rows.iter().any(|a| {
+        matches!(a.1, V::I(_)) && rows.iter().any(|b| matches!(b.1, V::F(_)) && crate::refagg::cmp(&a.1, &b.1) == Some(std::cmp::Ordering::Equal))
+    })
+}
+
+fn fmt_rows(rows: &[Row]) -> String {
+    format!("[{}]", rows.iter().map(|(k, x)| format!("({},{})", k.sql(), x.sql())).collect::<Vec<_>>().join(","))
+}
+
+fn fmt_ref(rows: &[Vec<V>]) -> String {
+    let mut b: Vec<Vec<NV>> = rows.iter().map(|r| r.iter().map(nv).collect()).collect();
+    b.sort();
+    val::fmt_bag(&b)
+}
+
+// ----- the check --------------------------------------------------------------------------------
+
+/// At most this many new violation signatures are written out per run (simplest first); further
+/// ones are counted. Signatures of open known findings are never cut.
+const MAX_REPORTED: usize = 40;
+
+struct Fail {
+    sig: Vec<(&'static str, String)>,
+    what: String,
+    case: Value,
+    v: Variant,
+    rows: Vec<Row>,
+    qi: usize,
+    off: bool,
+    oracle: &'static str,
+}
+
+#[derive(Default)]
+struct Counters {
+    evaluations: u64,
+    ok: u64,
+    errs: u64,
+    groups_expected: u64,
+    null_key_groups: u64,
+    empty_inputs: u64,
+    all_null_groups: u64,
+    distinct_collapses: u64,
+    outcomes: HashSet<u64>,
+    fails: Vec<Fail>,
+    seen: HashSet<String>,
+    failing: u64,
+}
+
+/// Compare one observation with the definition; returns (oracle, description) when it differs.
+fn judge(q: &Q, want: &[Vec<V>], got: &Obs) -> Option<(&'static str, String)> {
+    let mut w: Vec<Vec<NV>> = want.iter().map(|r| r.iter().map(nv).collect()).collect();
+    w.sort();
+    match got {
+        Obs::Panic => Some(("panic", "the query panicked".into())),
+        Obs::Err => Some(("rejected", format!("the query is rejected; by definition {}", val::fmt_bag(&w)))),
+        Obs::Rows(r) => {
+            let mut g = r.clone();
+            g.sort();
+            if g == w {
+                return None;
+            }
+            let oracle = if q.grouping == Grouping::None && g.len() != 1 {
+                "one_row_without_group_by"
+            } else if q.grouping != Grouping::None && g.len() != w.len() {
+                "one_row_per_distinct_key"
+            } else {
+                "aggregate_value"
+            };
+            Some((oracle, format!("returned {} but by definition {}", val::fmt_bag(&g), val::fmt_bag(&w))))
+        }
+    }
+}
+
+fn case_json(v: Variant, rows: &[Row], sql: &str, off: bool, want: &[Vec<V>]) -> Value {
+    let phys: Vec<Vec<V>> = rows.iter().map(|r| physical(v, r)).collect();
+    json!({
+        "kind": "c07",
+        "variant": format!("{:?}", v),
+        "steps": common::table_sql("g", &columns(v), &phys),
+        "rows": rows.iter().map(|(k, x)| json!([k.sql(), x.sql()])).collect::<Vec<_>>(),
+        "query": sql,
+        "columnar_gate_forced_off": off,
+        "expected_by_definition": fmt_ref(want),
+    })
+}
+
+pub fn run(tier: &str) -> i32 {
+    let thorough = tier == "thorough";
+    let mut rep = Report::new("C07", tier, "model_checking");
+    let n_env: Option<usize> = std::env::var("VERIF_C07_N").ok().and_then(|s| s.parse().ok());
+    // (variant, largest multiset size, multisets of size >= 3 inserted in both orders?)
+    let plan: Vec<(Variant, usize, bool)> = if thorough {
+        vec![(Variant::IntInt, 5, true), (Variant::IntDbl, 4, true), (Variant::Mixed, 4, true), (Variant::DblKey, 4, true), (Variant::Str, 4, true)]
+    } else {
+        vec![(Variant::IntInt, 3, true), (Variant::IntDbl, 2, true), (Variant::Mixed, 3, false), (Variant::DblKey, 2, true), (Variant::Str, 2, true)]
+    };
+
+    let mut total = Counters::default();
+    let findings = vcore::report::load_findings("C07");
+    let (mut new_kept, mut cut) = (0usize, 0usize);
+    let mut per_variant = vec![];
+    let mut dbs_total = 0usize;
+    let mut samples = vec![];
+    let columnar_before = common::reach("columnar_taken");
+
+    for (v, n, both_orders) in plan {
+        let n = n_env.unwrap_or(n);
+        let fam = family(v);
+        let mut stmts: Vec<SelectStmt> = vec![];
+        for q in &fam {
+            match common::parse_select(&q.sql(v)) {
+                Ok(s) => stmts.push(s),
+                Err(e) => {
+                    rep.machinery_error(format!("family query does not parse: {} => {}", q.sql(v), e));
+                    return rep.finish();
+                }
+            }
+        }
+        let dbs = databases(v, n, thorough, both_orders);
+        dbs_total += dbs.len();
+        let results: Vec<Result<Counters, String>> = par_map(&dbs, |_, rows| {
+            let mut c = Counters::default();
+            let db = build(v, rows)?;
+            for (qi, q) in fam.iter().enumerate() {
+                let want = reference(v, q, rows);
+                if q.grouping != Grouping::None {
+                    c.groups_expected += want.len() as u64;
+                    c.null_key_groups += want.iter().filter(|r| r[0].is_null()).count() as u64;
+                } else if rows.is_empty() {
+                    c.empty_inputs += 1;
+                }
+                if q.aggs.len() == 1 {
+                    let (f, d) = q.aggs[0];
+                    let keycols = want.first().map(|r| r.len() - 1).unwrap_or(0);
+                    if f != Func::CountStar && f != Func::Count {
+                        c.all_null_groups += want.iter().filter(|r| r[keycols].is_null()).count() as u64;
+                    }
+                    if d && q.grouping == Grouping::None {
+                        let plain = aggregate(f, false, &rows.iter().map(|r| r.1.clone()).collect::<Vec<_>>());
+                        if nv(&plain) != nv(&want[0][0]) {
+                            c.distinct_collapses += 1;
+                        }
+                    }
+                }
+                for off in [false, true] {
+                    let (got, msg) = common::run(&db, &stmts[qi], off);
+                    c.evaluations += 1;
+                    c.outcomes.insert(vcore::util::hash64(format!("{:?}", got).as_bytes()));
+                    if got.is_rows() {
+                        c.ok += 1;
+                    } else {
+                        c.errs += 1;
+                    }
+                    if let Some((oracle, what)) = judge(q, &want, &got) {
+                        c.failing += 1;
+                        let sig = vec![
+                            ("oracle", oracle.to_string()),
+                            ("aggs", q.shape()),
+                            ("grouping", format!("{:?}", q.grouping).to_lowercase()),
+                            ("path", if off { "gate_off".to_string() } else { "shipped".to_string() }),
+                            ("variant", format!("{:?}", v)),
+                            ("data", data_class(rows).to_string()),
+                            ("int_and_double_of_equal_value", if int_float_twins(rows) { "yes".to_string() } else { "no".to_string() }),
+                            ("distinct_aggregate", if q.aggs.iter().any(|(_, d)| *d) { "yes".to_string() } else { "no".to_string() }),
+                        ];
+                        if !c.seen.insert(format!("{:?}", sig)) {
+                            continue;
+                        }
+                        let sql = q.sql(v);
+                        c.fails.push(Fail {
+                            sig,
+                            what: format!(
+                                "{} [{}; columnar gate {}] over rows (k,x) {}: {}{}",
+                                sql,
+                                v.name(),
+                                if off { "forced off" } else { "as shipped" },
+                                fmt_rows(rows),
+                                what,
+                                if msg.is_empty() { String::new() } else { format!(" [{}]", msg) }
+                            ),
+                            case: case_json(v, rows, &sql, off, &want),
+                            v,
+                            rows: rows.clone(),
+                            qi,
+                            off,
+                            oracle,
+                        });
+                    }
+                }
+            }
+            Ok(c)
+        });
+        let mut vc = Counters::default();
+        for r in results {
+            match r {
+                Err(e) => rep.machinery_error(e),
+                Ok(c) => {
+                    vc.evaluations += c.evaluations;
+                    vc.ok += c.ok;
+                    vc.errs += c.errs;
+                    vc.groups_expected += c.groups_expected;
+                    vc.null_key_groups += c.null_key_groups;
+                    vc.empty_inputs += c.empty_inputs;
+                    vc.all_null_groups += c.all_null_groups;
+                    vc.distinct_collapses += c.distinct_collapses;
+                    vc.failing += c.failing;
+                    vc.outcomes.extend(c.outcomes);
+                    for f in c.fails {
+                        if vc.seen.insert(format!("{:?}", f.sig)) {
+                            vc.fails.push(f);
+                        }
+                    }
+                }
+            }
+        }
+        per_variant.push(json!({
+            "variant": v.name(), "rows_max": n, "sizes_3_and_up_in_both_insertion_orders": both_orders,
+            "databases": dbs.len(), "queries": fam.len(),
+            "evaluations": vc.evaluations, "failing": vc.failing,
+        }));
+        samples.push(json!({"variant": v.name(), "rows_kx": fmt_rows(&dbs[dbs.len() * 2 / 3]), "query": fam[fam.len() / 2].sql(v)}));
+        total.evaluations += vc.evaluations;
+        total.ok += vc.ok;
+        total.errs += vc.errs;
+        total.groups_expected += vc.groups_expected;
+        total.null_key_groups += vc.null_key_groups;
+        total.empty_inputs += vc.empty_inputs;
+        total.all_null_groups += vc.all_null_groups;
+        total.distinct_collapses += vc.distinct_collapses;
+        total.failing += vc.failing;
+        total.outcomes.extend(vc.outcomes);
+        total.fails.extend(vc.fails);
+
+        // re-execute every first witness twice from scratch
+        let fails = std::mem::take(&mut total.fails);
+        let mut confirmed = vec![];
+        for f in fails {
+            let known = findings.iter().any(|k| k.sig.iter().all(|(key, want)| f.sig.iter().any(|(a, b)| a == key && b == want)));
+            if !known {
+                if new_kept >= MAX_REPORTED {
+                    cut += 1;
+                    continue;
+                }
+                new_kept += 1;
+            }
+            let again = |f: &Fail| -> Result<Obs, String> {
+                let db = build(f.v, &f.rows)?;
+                Ok(common::run(&db, &stmts[f.qi], f.off).0)
+            };
+            match (again(&f), again(&f)) {
+                (Ok(a), Ok(b)) => {
+                    let want = reference(f.v, &fam[f.qi], &f.rows);
+                    let ja = judge(&fam[f.qi], &want, &a).map(|x| x.0);
+                    let jb = judge(&fam[f.qi], &want, &b).map(|x| x.0);
+                    if ja == Some(f.oracle) && jb == Some(f.oracle) {
+                        confirmed.push(f);
+                    } else if ja.is_some() || jb.is_some() {
+                        // HashMap-order dependent answers (RandomState): the law failure must
+                        // reproduce, the observation need not be bit-equal; report what reproduced
+                        if ja.is_some() && jb.is_some() {
+                            confirmed.push(f);
+                        } else {
+                            rep.machinery_error(format!("violation reproduces only sometimes: {}", f.what));
+                        }
+                    } else {
+                        rep.machinery_error(format!("violation did not reproduce from scratch: {}", f.what));
+                    }
+                }
+                (Err(e), _) | (_, Err(e)) => rep.machinery_error(format!("re-execution failed: {}", e)),
+            }
+        }
+        let vs: Vec<vcore::report::Violation> = confirmed
+            .into_iter()
+            .map(|f| vcore::report::Violation {
+                sig: f.sig.iter().map(|(k, v)| (k.to_string(), v.clone())).collect::<BTreeMap<_, _>>(),
+                what: f.what,
+                case: f.case,
+            })
+            .collect();
+        rep.merge_violations(vs, 0);
+    }
+    rep.merge_violations(vec![], total.failing);
+
+    let columnar_cases = common::reach("columnar_taken") - columnar_before;
+    rep.set("states", json!(dbs_total));
+    rep.set("transitions", json!(total.evaluations));
+    rep.set("traces_validated_against_impl", json!(total.evaluations));
+    rep.set("evaluations", json!(total.evaluations));
+    rep.set("distinct_nontrivial", json!(total.outcomes.len()));
+    rep.set("distinct_outcomes", json!(total.outcomes.len()));
+    rep.set("exhaustive", json!(true));
+    rep.set("per_variant", json!(per_variant));
+    rep.set("ok_results", json!(total.ok));
+    rep.set("error_results", json!(total.errs));
+    rep.set(
+        "reach",
+        json!({
+            "executions_through_execute_columnar": columnar_cases,
+            "groups_expected_total": total.groups_expected,
+            "groups_with_null_key": total.null_key_groups,
+            "ungrouped_queries_on_empty_table": total.empty_inputs,
+            "groups_whose_aggregate_is_null_by_definition": total.all_null_groups,
+            "cases_where_distinct_changes_the_value": total.distinct_collapses,
+        }),
+    );
+    let mut vac = vec![];
+    if columnar_cases == 0 {
+        vac.push("columnar_taken");
+    }
+    rep.set("vacuous_mechanisms", json!(vac));
+    rep.set("violation_signatures_not_written_out", json!(cut));
+    if cut > 0 {
+        println!("note: {} further violation signatures were counted but not written out (limit {})", cut, MAX_REPORTED);
+    }
+    rep.set("samples", json!(samples));
+    rep.assume("definitions of the aggregates and of grouping: harness/agg/src/refagg.rs (numbers compared by value; NULL keys one group)");
+    rep.assume("DOUBLE keys 0.0/-0.0/NaN: the expected partition is the one SqlValue's own Eq induces (property C21 owns that relation)");
+    println!(
+        "C07 {}: {} databases, {} executions (both paths), {} distinct outcomes, {} ok / {} error, {} through execute_columnar, {} failing",
+        tier, dbs_total, total.evaluations, total.outcomes.len(), total.ok, total.errs, columnar_cases, total.failing
+    );
+    rep.finish()
+}
+
+pub fn replay(case: &Value) -> i32 {
+    let variant = match case["variant"].as_str() {
+        Some("IntInt") => Variant::IntInt,
+        Some("IntDbl") => Variant::IntDbl,
+        Some("Mixed") => Variant::Mixed,
+        Some("DblKey") => Variant::DblKey,
+        Some("Str") => Variant::Str,
+        _ => {
+            eprintln!("MACHINERY-ERROR replay: unknown variant");
+            return 2;
+        }
+    };
+    let parse_v = |s: &str| -> V {
+        if s == "NULL" {
+            V::Null
+        } else if s.starts_with('\'') {
+            V::S(s.trim_matches('\'').to_string())
+        } else if s == "NaN" {
+            V::F(f64::NAN)
+        } else if let Ok(i) = s.parse::<i64>() {
+            V::I(i)
+        } else {
+            V::F(s.parse::<f64>().unwrap_or(f64::NAN))
+        }
+    };
+    let rows: Vec<Row> = case["rows"]
+        .as_array()
+        .map(|a| a.iter().map(|r| (parse_v(r[0].as_str().unwrap_or("NULL")), parse_v(r[1].as_str().unwrap_or("NULL")))).collect())
+        .unwrap_or_default();
+    let sql = case["query"].as_str().unwrap_or("");
+    let off = case["columnar_gate_forced_off"].as_bool().unwrap_or(false);
+    println!("table g ({}) rows (k,x): {}", variant.name(), fmt_rows(&rows));
+    println!("{}   [columnar gate {}]", sql, if off { "forced off" } else { "as shipped" });
+    let db = match build(variant, &rows) {
+        Ok(d) => d,
+        Err(e) => {
+            eprintln!("MACHINERY-ERROR replay setup: {}", e);
+            return 2;
+        }
+    };
+    let stmt = match common::parse_select(sql) {
+        Ok(s) => s,
+        Err(e) => {
+            eprintln!("MACHINERY-ERROR replay parse: {}", e);
+            return 2;
+        }
+    };
+    let (got, msg) = common::run(&db, &stmt, off);
+    let mut shown = got.clone();
+    if let Obs::Rows(r) = &mut shown {
+        r.sort();
+    }
+    println!("   returned      => {} {}", shown.brief(), msg);
+    let want = case["expected_by_definition"].as_str().unwrap_or("?");
+    println!("   by definition => {}", want);
+    if shown.brief() != want {
+        println!("REPRODUCED");
+        1
+    } else {
+        println!("not reproduced");
+        0
+    }
 }
